@@ -315,7 +315,26 @@ def make_client(name, cfg, timeout=1):
     c = ctor(kw)
     dec = RecClientDecoder()
     c.framer.decoder = dec
+    _record_state(c)
     return kind, c, dec
+
+
+def _record_state(c):
+    """every assignment to client.state is appended to c._vstates (spec/ClientState.tla): a property on a one-off subclass, so
+    no hook in the library is needed and str(client) / isinstance keep working"""
+    cls = c.__class__
+    init = getattr(c, "state", 0)
+
+    def _get(self):
+        return self.__dict__.get("_vstate", init)
+
+    def _set(self, v):
+        self.__dict__["_vstate"] = v
+        self.__dict__.setdefault("_vstates", []).append(int(v))
+    c.__dict__.pop("state", None)
+    c.__class__ = type(cls.__name__, (cls,), {"state": property(_get, _set), "__module__": cls.__module__})
+    c.__dict__["_vstate"] = init
+    c.__dict__["_vstates"] = []
 
 
 # ---- requests and their conformant replies ---------------------------------------------------------------
@@ -488,6 +507,9 @@ class Transaction:
         res = {"kind": "none", "pdu": [], "exc": ""}
         self.clock.ops = 0
         t_start = self.clock.t
+        s0 = int(getattr(self.c, "state", 0))
+        if hasattr(self.c, "_vstates"):
+            del self.c._vstates[:]
         try:
             if POISONED:
                 raise Watchdog("skipped after a hang")
@@ -534,4 +556,5 @@ class Transaction:
         return {"uid": uid, "fc": reqpdu[0], "pdu": list(reqpdu), "script": list(script), "fed": fed,
                 "writes": [list(w) for w in line.writes[w0:]], "reads": line.reads[r0:], "result": res,
                 "connfail": 0 if connect_ok else 1, "exact": exact, "pending_at_start": pending0, "vtime": round(self.clock.t - t_start, 3),
+                "s0": s0, "states": list(getattr(self.c, "_vstates", [])), "how": 0 if res["kind"] == "raised" else 1,
                 "normal_len": len(frame(0, uid, rsp))}     # length of the normal reply frame to this request (known-finding signature)
